@@ -458,6 +458,16 @@ example : pyFloat ['5'] = .num (.fin 5) ∧ pyFloat ['-', '1', '0', '.', '5', '0
 example : pyLiteral "['aes', 'mmx', 3]".toList
     = some (.list [.str ['a', 'e', 's'], .str ['m', 'm', 'x'], .num 3]) := by decide +kernel
 example : pyLiteral "12.5".toList = some (.item (.num (25 / 2))) := by decide +kernel
+-- every spelling `float()` accepts for a number is read as that number (leading / trailing dot, exponent,
+-- plus sign, leading zeros, surrounding blanks), on the value side and on the operand side
+example : pyFloat ".5".toList = .num (.fin (1 / 2)) ∧ pyFloat "5.".toList = .num (.fin 5)
+    ∧ pyFloat "1e3".toList = .num (.fin 1000) ∧ pyFloat "2.5E-1".toList = .num (.fin (1 / 4))
+    ∧ pyFloat "-.25".toList = .num (.fin (-1 / 4)) ∧ pyFloat "+01".toList = .num (.fin 1)
+    ∧ pyFloat " 5\n".toList = .num (.fin 5) ∧ pyFloat "1_0".toList = .num (.fin 10) := by decide +kernel
+example : matchSpec ".5".toList "< 1".toList = .ok true ∧ matchSpec "2.5".toList "> .5".toList = .ok true
+    ∧ matchSpec "1e3".toList ">= 500".toList = .ok true ∧ matchSpec "999".toList "< 1e3".toList = .ok true
+    ∧ matchSpec "5.".toList "== 5".toList = .ok true ∧ matchSpec "-.25".toList "= -2.5E-1".toList = .ok true
+    ∧ matchSpec "1e3".toList "<range-in> [ 1e2 1.e3 )".toList = .ok false := by decide +kernel
 example : Alternatives [([' '], [' '], ['b']), (['\n'], [], ['c'])] := by
   intro a ha
   simp only [List.mem_cons, List.not_mem_nil, or_false] at ha
